@@ -108,6 +108,7 @@ type MetaJ struct {
 	Ints  []*int64  `json:"i"`
 	Bools []*bool   `json:"b"`
 	Strs  []*string `json:"s"`
+	Srv   *string   `json:"srv,omitempty"` // GetStr(serverName); nil: not registered / unset
 }
 
 type TObsJ struct {
@@ -147,8 +148,10 @@ type ObsJ struct {
 }
 
 type CfgJ struct {
-	Thr         int64 `json:"thr,omitempty"`
-	EventDriven bool  `json:"ed"`
+	Thr         int64    `json:"thr,omitempty"`
+	EventDriven bool     `json:"ed"`
+	Srv         string   `json:"srv,omitempty"`  // cache.WithServerName
+	Excl        []string `json:"excl,omitempty"` // cache.WithExcludedMeta
 }
 
 type Case struct {
@@ -617,6 +620,10 @@ func (r *runner) observe() []TObsJ {
 					mj.Strs = append(mj.Strs, nil)
 				}
 			}
+			if v, err := m.GetStr(metadata.ServerName); err == nil {
+				v := v
+				mj.Srv = &v
+			}
 			o.Meta = mj
 		}
 		out = append(out, o)
@@ -768,6 +775,14 @@ func runCase(c *Case) {
 	}
 	if !c.Cfg.EventDriven {
 		opts = append(opts, cache.DisableEventDrivenEmulation())
+	}
+	if c.Cfg.Srv != "" {
+		opts = append(opts, cache.WithServerName(c.Cfg.Srv))
+		// the registration of serverName is global: undo it after the case
+		defer metadata.UnregisterServerNameMetadata()
+	}
+	if len(c.Cfg.Excl) > 0 {
+		opts = append(opts, cache.WithExcludedMeta(c.Cfg.Excl))
 	}
 	r := &runner{names: caseNames(c)}
 	cache.Now = func() time.Time { return time.Unix(0, 0) }
@@ -1019,7 +1034,11 @@ func (t *termer) meta(m *MetaJ) string {
 			ss[i] = "(Some " + t.str(*p) + ")"
 		}
 	}
-	return "(Some " + t.intern("m", "metaobs", fmt.Sprintf("MO %s %s %s", vh.List(is), vh.List(bs), vh.List(ss))) + ")"
+	srv := "None"
+	if m.Srv != nil {
+		srv = "(Some " + t.str(*m.Srv) + ")"
+	}
+	return "(Some " + t.intern("m", "metaobs", fmt.Sprintf("MO %s %s %s %s", vh.List(is), vh.List(bs), vh.List(ss), srv)) + ")"
 }
 
 func (t *termer) tobs(l []TObsJ) string {
@@ -1079,7 +1098,11 @@ func caseTerm(t *termer, c *Case) string {
 	for i, s := range c.Targets {
 		tg[i] = t.str(s)
 	}
-	return fmt.Sprintf("(Cfg %s %s [], %s, %s, %s)", vh.Z(c.Cfg.Thr), vh.Bool(c.Cfg.EventDriven), vh.List(tg), t.tobs(c.Init), vh.List(steps))
+	ex := make([]string, len(c.Cfg.Excl))
+	for i, s := range c.Cfg.Excl {
+		ex[i] = t.str(s)
+	}
+	return fmt.Sprintf("(Cfg %s %s %s, %s, %s, %s)", vh.Z(c.Cfg.Thr), vh.Bool(c.Cfg.EventDriven), vh.List(ex), vh.List(tg), t.tobs(c.Init), vh.List(steps))
 }
 
 // ---------------------------------------------------------------------------
@@ -1121,7 +1144,7 @@ func newCaseFile() *caseFile { return &caseFile{t: newTermer()} }
 func (c *caseFile) Len() int { return len(c.terms) }
 
 func (c *caseFile) add(cs *Case) {
-	c.terms = append(c.terms, wrapCase(caseTerm(c.t, cs)))
+	c.terms = append(c.terms, wrapCase(c.t, cs, caseTerm(c.t, cs)))
 	b, err := json.Marshal(cs)
 	if err != nil {
 		panic(err)
